@@ -173,6 +173,8 @@ pub struct Gen<'t, 'c> {
     input_datum: Vec<Option<usize>>,
     /// UTxO count per input
     input_count: Vec<usize>,
+    /// references handed out in the current transaction (a transaction id may be shared, a reference not)
+    seen_refs: Vec<(Vec<u8>, u32)>,
     arg_vals: Vec<Val>,
     env_vals: Vec<Val>,
     party_addrs: Vec<Vec<u8>>,
@@ -223,6 +225,7 @@ impl<'t, 'c> Gen<'t, 'c> {
             cur: GTx::default(),
             input_datum: vec![],
             input_count: vec![],
+            seen_refs: vec![],
             arg_vals: vec![],
             env_vals: vec![],
             party_addrs: vec![],
@@ -1145,13 +1148,25 @@ impl<'t, 'c> Gen<'t, 'c> {
             let fields = tdef.cases[0].fields.iter().map(|(_, t)| self.gen_val(t, 0)).collect();
             Val::Rec(0, fields)
         });
+        // several outputs of one earlier transaction are spent together often enough: one time in three
+        // the transaction id of a UTxO handed out before is reused; output indices come from a pool that
+        // crosses the decimal (9 / 10, 99 / 100) and the CBOR width (23 / 24, 255 / 256, 65535 / 65536) steps
+        let txid = if !self.seen_refs.is_empty() && self.t.chance(1, 3) {
+            self.seen_refs[self.t.pick(self.seen_refs.len())].0.clone()
+        } else {
+            let mut t = fixed_bytes(s, 32);
+            t[31] = serial as u8; // distinct by construction
+            t
+        };
+        const INDEX_POOL: [u32; 16] = [0, 1, 2, 3, 9, 10, 11, 23, 24, 99, 100, 255, 256, 1000, 65535, 65536];
+        let mut index = if self.t.chance(1, 2) { self.t.pick(4) as u32 } else { INDEX_POOL[self.t.pick(INDEX_POOL.len())] };
+        while self.seen_refs.iter().any(|(t, i)| *t == txid && *i == index) {
+            index += 1;
+        }
+        self.seen_refs.push((txid.clone(), index));
         GUtxo {
-            txid: {
-                let mut t = fixed_bytes(s, 32);
-                t[31] = serial as u8; // distinct by construction
-                t
-            },
-            index: self.t.pick(4) as u32,
+            txid,
+            index,
             address: shelley_address(self.t.pick(4), self.t.pick(200) as u8, false),
             value,
             datum,
@@ -1162,6 +1177,7 @@ impl<'t, 'c> Gen<'t, 'c> {
         self.cur = GTx { name: TX_NAMES[txi].to_string(), ..GTx::default() };
         self.input_datum.clear();
         self.input_count.clear();
+        self.seen_refs.clear();
         self.arg_vals.clear();
 
         // parameters
